@@ -211,6 +211,9 @@ func (sc *serverConn) processData(f *DataFrame) error {
 		st.inflow.take(int32(len(data)))
 		wrote, err := st.body.Write(data)
 		if err != nil {
+			// the octets that did not reach the body will never be read:
+			// give their connection-level credit back now
+			sc.sendWindowUpdate(nil, len(data)-wrote)
 			state.SpdyErrStreamAlreadyClosed.Inc(1)
 			return StreamError{id, StreamAlreadyClosed}
 		}
